@@ -59,6 +59,7 @@ def addToVmap (reg : List Ty) (m : List (Ty × Nat)) (count : Nat) (rm : List (T
 
 structure SlotOut where
   st : SlotState
+  staticD : List (Ty × Nat) := []  -- the downward map as it stands after the static set (what the init check looks at)
   zskip : List (Nat × List Ty)     -- position ↦ mustZeroIfRemainderSkipped
   zinner : List (Nat × List Ty)    -- position ↦ mustZeroIfInnerNotCalled
 deriving Repr, Inhabited
@@ -89,7 +90,7 @@ def assignSlots (ch : Chain) (invokeIndex : Nat) : SlotOut :=
       let (um, cnt) := addToVmap st.reg st.umap cnt [] fm.c.ret
       let st := { st with dmap := dm, umap := um, count := cnt }
       (st, (i, st.umap.map (·.1)) :: zi)) (st1, [])
-  { st := st2, zskip := zskip, zinner := zinner }
+  { st := st2, staticD := st1.dmap, zskip := zskip, zinner := zinner }
 
 structure BindOut where
   chain : Chain
@@ -130,7 +131,8 @@ def bindModel (ti : TyInfo) (enodes : List ENode) (descs : List PDesc) (inv : Si
         if !checkShadowing ch then .error .shadow else
         let so := assignSlots ch asm.invokeIndex
         let initBad := match ch.find? (·.c.cls == .initFunc) with
-          | some f => f.c.byp.any fun t => so.st.reg.contains (remapT f.downRmap t) && (so.st.dmap.lookup (remapT f.downRmap t)).isNone
+          -- (bind.go looks the type up through downRmap, not bypassRmap, and before the run set gets its slots)
+          | some f => f.c.byp.any fun t => so.st.reg.contains (remapT f.downRmap t) && (so.staticD.lookup (remapT f.downRmap t)).isNone
           | none => false
         if initBad then .error .initType
         else .ok { chain := ch, invokeIndex := asm.invokeIndex, slots := so }
